@@ -2,11 +2,15 @@
 """Confirm a seeded change and run checks against it.
 
 usage: tools/try_seed.py <change dir with patch.diff, demo.py> <seed id> <property> [more properties to run …]
+                         [--lane N] [--no-check] [--tier quick|thorough]
 
-1. scratch worktree of /repo: apply patch, run the repo's test suite, run demo.py (must fail);
-   demo.py on the unchanged tree must pass.  Worktree removed afterwards.
-2. apply the patch to /repo, run ./check <prop> --tier quick for each listed property, undo.
-3. store patch, demo and meta.json under /verif/seeded/<seed id>/.
+1. scratch worktree of /repo: run demo.py (must pass), apply patch, run the repo's test suite (must pass), run
+   demo.py (must fail).
+2. the checks run in a *lane*: a scratch copy of /verif (/tmp/lane<N>/verif, rsync'ed from /verif, build output
+   included) against the patched worktree (/tmp/lane<N>/repo) through PYTHONPATH / VERIF_REPO, which is what
+   `git -C /repo apply` + run + `git -C /repo checkout -- .` does, without disturbing anything else that reads /repo
+   or /verif meanwhile (several lanes can run side by side).  `--in-repo` does it literally in /repo instead.
+3. store patch, demo and meta.json under /verif/seeded/<seed id>/; worktree removed.
 """
 import json
 import os
@@ -28,49 +32,80 @@ def sh(cmd, cwd=None, env=None, timeout=3600):
 
 
 def main():
-    src, sid, prop = sys.argv[1], sys.argv[2], sys.argv[3]
-    props = [prop] + sys.argv[4:]
-    patch = os.path.join(src, "patch.diff")
-    demo = os.path.join(src, "demo.py")
-    wt = f"/tmp/seedwt-{os.getpid()}"
+    args = [a for a in sys.argv[1:]]
+    lane = "0"
+    tier = "quick"
+    if "--lane" in args:
+        i = args.index("--lane")
+        lane = args[i + 1]
+        del args[i:i + 2]
+    if "--tier" in args:
+        i = args.index("--tier")
+        tier = args[i + 1]
+        del args[i:i + 2]
+    flags = [a for a in args if a.startswith("--")]
+    args = [a for a in args if not a.startswith("--")]
+    src, sid, prop = args[0], args[1], args[2]
+    props = [prop] + args[3:]
+    patch = os.path.abspath(os.path.join(src, "patch.diff"))
+    demo = os.path.abspath(os.path.join(src, "demo.py"))
+    lane_dir = f"/tmp/lane{lane}"
+    wt = f"{lane_dir}/repo"
+    os.makedirs(lane_dir, exist_ok=True)
     meta = {"id": sid, "breaks_property": prop, "source": src, "checked_at": time.strftime("%Y-%m-%d %H:%M:%S")}
+    sh(f"git -C {REPO} worktree remove --force {wt}")
     sh(f"git -C {REPO} worktree add --detach {wt} HEAD -q")
+    results = {}
     try:
-        rc, out = sh(f"PYTHONPATH={wt} /venv/bin/python {demo}", cwd=wt, timeout=900)
+        rc, out = sh(f"PYTHONPATH={wt} /venv/bin/python {demo}", cwd=wt, timeout=1800)
         meta["demo_unchanged_rc"] = rc
         rc, out = sh(f"git apply {patch}", cwd=wt)
         meta["patch_applies"] = rc == 0
         if rc != 0:
             print("patch does not apply:", out)
-        rc, out = sh(f"PYTHONPATH={wt} /venv/bin/python -m pytest -q -p no:cacheprovider --timeout=900 -n 8 2>&1 | tail -3", cwd=wt)
+        rc, out = sh(f"PYTHONPATH={wt} /venv/bin/python -m pytest -q -p no:cacheprovider --timeout=900 -n 4 2>&1 | tail -3", cwd=wt)
         meta["tests_with_change"] = out.strip().split("\n")[-1]
-        rc, out = sh(f"PYTHONPATH={wt} /venv/bin/python {demo}", cwd=wt, timeout=900)
+        rc, out = sh(f"PYTHONPATH={wt} /venv/bin/python {demo}", cwd=wt, timeout=1800)
         meta["demo_changed_rc"] = rc
         meta["demo_changed_tail"] = out[-400:]
+        meta["confirmed"] = bool(meta.get("patch_applies") and meta["demo_unchanged_rc"] == 0 and meta["demo_changed_rc"] != 0
+                                 and "passed" in meta["tests_with_change"] and "failed" not in meta["tests_with_change"])
+        print(json.dumps(meta, indent=1))
+        if meta["confirmed"] and "--no-check" not in flags:
+            if "--in-repo" in flags:
+                rc, out = sh(f"git -C {REPO} status --short")
+                assert out.strip() == "", "repo not clean: " + out
+                sh(f"git -C {REPO} apply {patch}")
+                vdir, env = VERIF, {}
+            else:
+                vdir = f"{lane_dir}/verif"
+                os.makedirs(vdir, exist_ok=True)
+                sh(f"rsync -a --delete --exclude .git --exclude replays --exclude evidence {VERIF}/ {vdir}/")
+                os.makedirs(f"{vdir}/evidence", exist_ok=True)
+                env = {"PYTHONPATH": wt, "VERIF_REPO": wt}
+            try:
+                for p in props:
+                    t0 = time.time()
+                    rc, out = sh(f"./check {p} --tier {tier}", cwd=vdir, env=env, timeout=7200)
+                    viol = [l for l in out.split("\n") if l.startswith("VIOLATION")]
+                    results[p] = {"exit": rc, "violation_lines": viol, "wall_s": round(time.time() - t0, 1),
+                                  "tail": out.strip().split("\n")[-1][:300]}
+                    print(p, "exit", rc, viol[:1])
+                    if viol:
+                        # keep the first replay file next to the seed record (small ones only)
+                        rp = viol[0].split("replay=")[1].split()[0]
+                        rp = os.path.join(vdir, rp)
+                        if os.path.exists(rp) and os.path.getsize(rp) < 200000:
+                            os.makedirs(os.path.join(VERIF, "seeded", sid), exist_ok=True)
+                            shutil.copyfile(rp, os.path.join(VERIF, "seeded", sid, f"replay-{p}.json"))
+            finally:
+                if "--in-repo" in flags:
+                    sh(f"git -C {REPO} checkout -- .")
+                    sh("/venv/bin/python -m harness.translate.all", cwd=VERIF)
     finally:
         sh(f"git -C {REPO} worktree remove --force {wt}")
-    meta["confirmed"] = bool(meta.get("patch_applies") and meta["demo_unchanged_rc"] == 0 and meta["demo_changed_rc"] != 0
-                             and "passed" in meta["tests_with_change"] and "failed" not in meta["tests_with_change"])
-    print(json.dumps(meta, indent=1))
-    results = {}
-    if meta["confirmed"] and "--no-check" not in sys.argv:
-        rc, out = sh(f"git -C {REPO} status --short")
-        assert out.strip() == "", "repo not clean: " + out
-        rc, out = sh(f"git -C {REPO} apply {patch}")
-        try:
-            for p in [x for x in props if not x.startswith("--")]:
-                t0 = time.time()
-                rc, out = sh(f"./check {p} --tier quick", cwd=VERIF, timeout=3600)
-                viol = [l for l in out.split("\n") if l.startswith("VIOLATION")]
-                results[p] = {"exit": rc, "violation_lines": viol, "wall_s": round(time.time() - t0, 1),
-                              "tail": out.strip().split("\n")[-1][:300]}
-                print(p, "exit", rc, viol[:1])
-        finally:
-            sh(f"git -C {REPO} checkout -- .")
-            # the translators ran against the changed tree: regenerate the generated Lean files from the clean one
-            sh("/venv/bin/python -m harness.translate.all", cwd=VERIF)
-            # evidence files were rewritten against the changed tree: regenerate on the clean tree later
     meta["check_results"] = results
+    meta["ran_as"] = "in /repo" if "--in-repo" in flags else "lane (scratch copy of /verif against a patched worktree of /repo)"
     dst = os.path.join(VERIF, "seeded", sid)
     os.makedirs(dst, exist_ok=True)
     shutil.copyfile(patch, os.path.join(dst, "patch.diff"))
